@@ -266,6 +266,13 @@ func execC14(c CaseC14) *Outcome {
 			opened = append(opened, sc)
 			return fail("a local-only Open of %s on a peer that never saw the database was accepted", addrA)
 		}
+		// ... whether or not the caller also asks for the database to be created when missing (the typed
+		// helpers always do): an address names an existing database, nothing can be created for it
+		yesCreate := true
+		if sc, err := w.Peers[2].DB.Open(ctx, addrA.String(), &orbitdb.CreateDBOptions{Replicate: &no, LocalOnly: &yesLocal, Create: &yesCreate, StoreType: &t.Type}); err == nil {
+			opened = append(opened, sc)
+			return fail("a local-only Open (with create-if-missing) of %s on a peer that never saw the database was accepted", addrA)
+		}
 		if sl, err := a.Open(ctx, addrA.String(), &orbitdb.CreateDBOptions{Replicate: &no, LocalOnly: &yesLocal}); err != nil {
 			return fail("a local-only Open of %s on the peer that created it was refused: %v", addrA, err)
 		} else {
@@ -293,6 +300,10 @@ func execC14(c CaseC14) *Outcome {
 				}
 				return st, nil
 			}
+		}
+		if st, err := typed(w.Peers[2].DB, t.Type, addrA.String(), &orbitdb.CreateDBOptions{Replicate: &no, LocalOnly: &yesLocal}); err == nil {
+			opened = append(opened, st)
+			return fail("the local-only %s helper opened %s on a peer that never saw the database", t.Type, addrA)
 		}
 		other := map[string]string{"eventlog": "keyvalue", "keyvalue": "docstore", "docstore": "eventlog"}[t.Type]
 		if st, err := typed(w.Peers[2].DB, t.Type, addrA.String(), &orbitdb.CreateDBOptions{Replicate: &no}); err != nil {
